@@ -121,8 +121,6 @@ def walk_own(fnode):
         stack.extend(ast.iter_child_nodes(n))
 
 
-def walk_all(node):
-    return ast.walk(node)
 
 
 def set_parents(tree):
